@@ -235,7 +235,7 @@ def tstr(t):
 
 
 class State:
-    __slots__ = ("env", "attrs", "facts", "ret", "exc", "log", "alog", "events")
+    __slots__ = ("env", "attrs", "facts", "ret", "exc", "log", "alog", "events", "cterms")
 
     def __init__(self):
         self.env = {}
@@ -245,6 +245,7 @@ class State:
         self.exc = None
         self.log = []
         self.alog = []
+        self.cterms = {}  # id(call node) -> its term as evaluated when the call happened (before later rebindings)
         self.events = []
 
     def fork(self):
@@ -256,6 +257,7 @@ class State:
         s.exc = self.exc
         s.log = list(self.log)
         s.alog = list(self.alog)
+        s.cterms = dict(self.cterms)
         s.events = list(self.events)
         return s
 
@@ -1098,9 +1100,22 @@ class SymEngine:
                     st.env[ev.node.name] = ("exc", ev.b, id(ev.node))
             elif ev.a == "with":
                 self._bind_target(ev.node, ("with", self.ev(ev.b, f, st)), f, st)
+        elif k == "src" and isinstance(ev.node, ast.Subscript) and ev.a in ("ok", "KeyError") and id(ev.node) in self._keyerror_guarded(f):
+            # `try: v = d[k]  except KeyError: ..` asks the question `k in d`: the two outcomes of the read are
+            # logged as that test, so that it reads like `if k in d: v = d[k] else: ..`
+            try:
+                t = ("cmp", "in", self.ev(ev.node.slice, f, st), self.ev(ev.node.value, f, st))
+                st.log.append((t, ev.a == "ok", ev.node))
+            except Exception:
+                pass
         elif k == "return":
             st.ret = self.ev(ev.node.value, f, st) if ev.node.value is not None else C(None)
-        elif k == "call" and ev.a == "ok" and isinstance(ev.node, ast.Call) and isinstance(ev.node.func, ast.Attribute) \
+        if k == "call" and ev.a == "ok" and isinstance(ev.node, ast.Call) and id(ev.node) not in st.cterms:
+            try:
+                st.cterms[id(ev.node)] = self.ev(ev.node, f, st)
+            except Exception:
+                pass
+        if k == "call" and ev.a == "ok" and isinstance(ev.node, ast.Call) and isinstance(ev.node.func, ast.Attribute) \
                 and isinstance(ev.node.func.value, ast.Name) and ev.node.func.attr in MUTATING_METHODS:
             # x.append(..) / x.pop() on a local that holds a literal container: its size and truthiness are no
             # longer those of the literal
@@ -1111,6 +1126,21 @@ class SymEngine:
                 st.env[nm] = ("mut", base, len(st.events))
         st.events.append(ev)
         return True
+
+    def _keyerror_guarded(self, f):
+        """ids of the subscript reads of f that sit in a try body whose handlers catch KeyError"""
+        memo = self.__dict__.setdefault("_kg_memo", {})
+        key = (f.qual, id(f.node))
+        if key not in memo:
+            out = set()
+            for n in ast.walk(f.node):
+                if isinstance(n, ast.Try) and any(h.type is not None and "KeyError" in ast.unparse(h.type) for h in n.handlers):
+                    for b in n.body:
+                        for x in ast.walk(b):
+                            if isinstance(x, ast.Subscript) and isinstance(x.ctx, ast.Load) and not isinstance(x.slice, ast.Slice):
+                                out.add(id(x))
+            memo[key] = out
+        return memo[key]
 
     def run(self, f, path, init=None, split=None):
         """Run one path; with `split`, calls to functions that have case summaries fork
